@@ -9,6 +9,7 @@ import copy
 import itertools
 from fractions import Fraction
 
+import numpy as np
 import pandas as pd
 
 from ..brokermachine import F, Fx, close
@@ -26,6 +27,12 @@ def alphabet(tier):
     if tier == 'rebate':
         # negative commissions (liquidity rebates) are commissions too
         evs = [('fill', q, p_, c) for q in (2, -2, 5, -5) for p_ in ('10', '12.5') for c in ('-0.4', '0.3')]
+        return evs + [('mark', '11')]
+    if tier == 'fractional':
+        # non-integer lots (binary fractions, so the exact ledger and the floats agree on when the position is flat).
+        # Every lot is at least one unit: the library documents integer quantities and Position.transact treats a
+        # lot with int(floor(q)) == 0 as "no quantity" - sub-unit lots are outside its domain (DESIGN section 9)
+        evs = [('fill', q, p_, c) for q in (2.5, -2.5, 1.25, -1.25, 2, -2) for p_ in ('10', '12.5') for c in ('0', '1.25')]
         return evs + [('mark', '11')]
     if tier == 'large':
         # large sizes with a residual of a few units (relative 5e-6): no tolerance may treat them as flat
@@ -126,6 +133,22 @@ def pattern(ref):
 # ------------------------------------------------------------------------------------------
 # seam 1: the Position object
 # ------------------------------------------------------------------------------------------
+
+_SCALARS = (int, float, str, bool, type(None), np.floating, np.integer, pd.Timestamp)
+
+
+def clone(pos):
+    """An independent copy of a Position for one branch of the tree.  A shallow copy is one exactly when every
+    attribute value is an immutable scalar (true of the library today); a library that keeps its books in
+    nested objects gets a deep copy - how a Position stores its figures is not the harness's business."""
+    try:
+        if all(isinstance(v, _SCALARS) for v in vars(pos).values()):
+            return copy.copy(pos)
+    except TypeError:
+        pass
+    return copy.deepcopy(pos)
+
+
 def apply_position(pos, ref, ev, i):
     """Returns (pos, ref, fails) after the event; pos may be None before the first fill."""
     from qstrader.broker.portfolio.position import Position
@@ -136,7 +159,7 @@ def apply_position(pos, ref, ev, i):
         # a fill the position refuses (stale timestamp or non-positive price): nothing may stick to the books
         if pos is None:
             return None, ref, fails
-        pos = copy.copy(pos)
+        pos = clone(pos)
         q, p, c, why = ev[1], ev[2], ev[3], ev[4]
         bad_dt = pos.current_dt - pd.Timedelta(minutes=1) if why == 'stale' else dt
         txn = Transaction('A', q, bad_dt, float(p), 'r%d' % i, commission=float(c))
@@ -152,16 +175,16 @@ def apply_position(pos, ref, ev, i):
         if pos is None:
             pos = Position.open_from_transaction(txn)
         else:
-            pos = copy.copy(pos)
+            pos = clone(pos)
             pos.transact(txn)
         ref = ref.copy()
-        ref.fills.append((q, F(p), F(c)))
+        ref.fills.append((Fraction(q), F(p), F(c)))
         ref.price = F(p)
     else:
         if pos is None:
             return None, ref, fails
         before = (pos.realised_pnl, pos.net_quantity, pos.buy_quantity, pos.sell_quantity)
-        pos = copy.copy(pos)
+        pos = clone(pos)
         pos.update_current_price(float(ev[1]), dt)
         after = (pos.realised_pnl, pos.net_quantity, pos.buy_quantity, pos.sell_quantity)
         ref = ref.copy()
@@ -395,6 +418,11 @@ def run(tier, res, is_known):
     product(subtree_position, fitems, res, is_known, label='position tree with refused fills', chunk=1, sample_every=7)
     if any(not is_known(v) for v in res.violations):
         return
+    qevs = alphabet('fractional')
+    qitems = [('fractional', (), 0)] + [('fractional', (pre,), 2 if tier == 'quick' else 3) for pre in qevs]
+    product(subtree_position, qitems, res, is_known, label='position tree, fractional lots', chunk=1, sample_every=7)
+    if any(not is_known(v) for v in res.violations):
+        return
     revs = alphabet('rebate')
     ritems = [('rebate', (), 0)] + [('rebate', (pre,), 3) for pre in revs]
     product(subtree_position, ritems, res, is_known, label='position tree, negative commissions', chunk=1, sample_every=7)
@@ -436,6 +464,9 @@ def run(tier, res, is_known):
             rec(net, pat + ('L' if net > 0 else 'S' if net < 0 else 'F'), d + 1)
     rec(0, '', 0)
     got = res.extra.get('net_sign_paths', set())
+    # distinct observed outcomes = the running net-sign paths (long / short / flat per step) actually reached
+    res.outcomes |= {('position',) + tuple(x) if not isinstance(x, str) else ('position', x) for x in got}
+    res.outcomes |= {('portfolio', str(x)) for x in res.extra.get('portfolio_net_sign_paths', ())}
     res.extra['net_sign_paths_realisable'] = len(want)
     res.extra['net_sign_paths_missing'] = sorted(want - got)[:10]
     res.extra['net_sign_paths'] = len(got)
